@@ -348,6 +348,8 @@ def run_history(case, tmpdir):
                     except BaseException:  # noqa: BLE001
                         cache_before = None
                 st, ex, cnt, ctl = run_op(cur, lambda: exo(*op["args"]))
+                if cache_before is None and "from_cache" not in kw:
+                    cache_before = {}  # no cache file: the map is the DAG-level map with the arguments bound
                 if cache_before is not None and ctl.res0s:
                     # what the scheduler was handed for this restart (checked against Cache.ksource)
                     o["start_map"] = dict(res0=dict(ctl.res0s[0]), dag=dag_before, cache=cache_before,
@@ -591,7 +593,8 @@ def run(pid, tier, seed, res, only=None):
                 # (a caching run that was itself a restart may have mixed cached results with other arguments: its
                 #  value is then not what a run on its own arguments computes, and says nothing about this restart)
                 same_sel = same_sel and src.get("from_cache") is None
-                if o["status"] == "raise":
+                if o["status"] == "raise" and not case.get("bad_index"):
+                    # (in a bad-index history the describing function itself is erroneous: raising is expected)
                     res.hit("C18", "monitor", "restart from the cache file raised %s" % o["error"], dict(base, kind="monitor", op_index=oi))
                 elif same_sel and not o.get("cache_src_overwritten") and o["value"] != o.get("cache_src_value"):
                     # position i of the returned tuple is node n_i.  A setup node that was outside the caching
